@@ -199,6 +199,7 @@ class Reader(BaseValidator):
                 source_path = source_data_stream_or_path.name
             except AttributeError:
                 source_path = "<io>"
+        self._source_path = source_path
         self._location = errors.Location(source_path, has_cell=True)
         self._source_data_stream_or_path = source_data_stream_or_path
         self._on_error = on_error
@@ -243,6 +244,8 @@ class Reader(BaseValidator):
         """
         self.accepted_rows_count = 0
         self.rejected_rows_count = 0
+        # Start counting rows from the beginning in case the data are read another time.
+        self._location = errors.Location(self._source_path, has_cell=True)
         for check in self.cid.check_map.values():
             check.reset()
         header_row_count = self._cid.data_format.header
